@@ -53,6 +53,32 @@ pub fn mk_block(h: &mut Hist, parent: &Hash, coins: &[Coin], difficulty: u64, ta
 	gb
 }
 
+/// Block on `parent` carrying exactly `txs`, with an explicit SKIP_POW difficulty; judged by the reference rules.
+pub fn mk_block_txs(h: &mut Hist, parent: &Hash, txs: &[grin_core::core::Transaction], difficulty: u64, tag: &str) -> GenBlock {
+	let k = h.fresh_key();
+	let w = h.world.clone();
+	let mut p = h.prng.fork(43);
+	let b = h
+		.ledger
+		.make_block(&w, &mut p, parent, txs, &k, PowMode::Skip { difficulty }, 60)
+		.expect("block");
+	let fees: u64 = txs.iter().map(|t| t.fee()).sum();
+	let cb = w.coin(grin_core::consensus::reward(fees), &k, true);
+	h.coins.insert(cb.commit.0.to_vec(), cb);
+	let st = h.ledger.state_at(parent);
+	let verdict = st.check_block(&b);
+	let gb = GenBlock {
+		hash: b.hash(),
+		parent: *parent,
+		block: b,
+		verdict,
+		class: "honest".into(),
+		tags: vec![tag.to_string()],
+	};
+	h.blocks.push(gb.clone());
+	gb
+}
+
 /// Compaction × reorg: the first block above a fork point spends complete SIBLING PAIRS of old
 /// outputs, `depth - 1` coinbase-only blocks follow, `Chain::compact()` runs at that head (with
 /// depth == horizon the spender is the first block above the compaction horizon), then a heavier
